@@ -66,6 +66,115 @@ Section C.
         match goal with |- match ?g with _ => _ end <> None => destruct g end; [discriminate|].
         exfalso. apply G. reflexivity.
   Qed.
+
+  (* ---------- the repair variant: the holder of every place exists ---------- *)
+  Section HG.
+    Variable k : string.
+    Variable p' : path.
+    Variable rest : path.
+    Variable own : option string.
+    Definition hdown (c : node) : option string :=
+      match c with
+      | NTuple _ => match rest with [] => own | _ => None end
+      | _ => holder_class V p' c
+      end.
+    Fixpoint hgo (a : list (string * node)) : option string :=
+      match a with
+      | [] => None
+      | (k', c) :: a' =>
+          if String.eqb k k' then match hdown c with Some x => Some x | None => hgo a' end else hgo a'
+      end.
+
+    Lemma hgo_some (a : list (string * node)) (c : node) : In (k, c) a -> hdown c <> None -> hgo a <> None.
+    Proof.
+      intros Hin Hd. induction a as [|[k' c'] a IH]; [contradiction|]. simpl.
+      destruct Hin as [E|Hin].
+      - inversion E; subst. rewrite String.eqb_refl. destruct (hdown c); [discriminate|contradiction].
+      - destruct (String.eqb k k'); [destruct (hdown c'); [discriminate|]|]; apply IH; exact Hin.
+    Qed.
+  End HG.
+
+  Lemma holder_model k x rest cls ctor attrs :
+    holder_class V (k :: x :: rest) (NModel cls ctor attrs) = hgo k (x :: rest) rest (Some cls) attrs.
+  Proof. reflexivity. Qed.
+  Lemma holder_coll k x rest attrs :
+    holder_class V (k :: x :: rest) (NColl attrs) = hgo k (x :: rest) rest (Some "ModelInstance") attrs.
+  Proof. reflexivity. Qed.
+
+  Lemma walk_attrs_in (attrs : list (string * node)) (p : path) (q : nat) :
+    In (p, q) (walk_attrs V attrs) -> exists k c p', p = k :: p' /\ In (k, c) attrs /\ In (p', q) (walk V c).
+  Proof.
+    unfold walk_attrs. intro H. apply in_flat_map in H. destruct H as [[k c] [Hin Hp]]. simpl in Hp.
+    unfold prefix_paths in Hp. apply in_map_iff in Hp. destruct Hp as [[p' q'] [E Hw]]. simpl in E. inversion E; subst.
+    exists k, c, p'. auto.
+  Qed.
+
+  Lemma leaf_members_paths (ms : list (string * (nat * node))) (p : path) (q : nat) :
+    Forall (fun m => is_leaf V (snd (snd m)) = true) ms -> In (p, q) (walk_members V ms) -> exists m, p = [m].
+  Proof.
+    intros F H. unfold walk_members in H. apply in_flat_map in H. destruct H as [[k [i c]] [Hin Hp]]. simpl in Hp.
+    rewrite Forall_forall in F. specialize (F _ Hin). simpl in F.
+    unfold prefix_paths in Hp. apply in_map_iff in Hp. destruct Hp as [[p' q'] [E Hw]]. simpl in E. inversion E; subst.
+    destruct c; try discriminate F; simpl in Hw; [destruct Hw as [Ew|[]]; inversion Ew; subst; exists k; reflexivity|contradiction].
+  Qed.
+
+  Lemma hdown_some (c : node) (x : string) (rest : path) (q : nat) (o : string) :
+    wf V c -> (is_pm c = true -> forall p q, In (p, q) (walk V c) -> holder_class V p c <> None) ->
+    In (x :: rest, q) (walk V c) -> hdown (x :: rest) rest (Some o) c <> None.
+  Proof.
+    intros W IH Hin. destruct c as [p0|v|ms|o' ln rn l r|cls ctor at'|at']; unfold hdown.
+    - simpl in Hin. destruct Hin as [E|[]]. discriminate E.
+    - contradiction.
+    - destruct W as [Wl _]. rewrite walk_tuple in Hin. destruct (leaf_members_paths ms _ q Wl Hin) as [m E].
+      inversion E; subst. discriminate.
+    - apply (IH eq_refl _ q Hin).
+    - apply (IH eq_refl _ q Hin).
+    - apply (IH eq_refl _ q Hin).
+  Qed.
+
+  Lemma holder_class_some : forall n, wf V n -> is_pm n = true ->
+    forall p q, In (p, q) (walk V n) -> holder_class V p n <> None.
+  Proof.
+    induction n as [p0|v|ms _|o ln rn l r IHl IHr|cls ctor attrs IH|attrs IH] using node_ind'; intros W P p q Hin; try discriminate P.
+    - destruct W as [Wl [Wr Wn]]. cbn [walk] in Hin.
+      assert (Cases : exists k p' c, p = k :: p' /\ In (p', q) (walk V c) /\ wf V c /\
+                 (is_pm c = true -> forall p q, In (p, q) (walk V c) -> holder_class V p c <> None) /\
+                 ((String.eqb k rn = true /\ c = r) \/ (String.eqb k rn = false /\ String.eqb k ln = true /\ c = l))).
+      { destruct (String.eqb_spec ln rn) as [E|Ne].
+        - unfold prefix_paths in Hin. apply in_map_iff in Hin. destruct Hin as [[p' q'] [E' Hw]]. simpl in E'. inversion E'; subst.
+          exists rn, p', r. split; [reflexivity|]. split; [exact Hw|]. split; [exact Wr|]. split; [exact (IHr Wr)|].
+          left. split; [apply String.eqb_refl|reflexivity].
+        - apply in_app_or in Hin. destruct Hin as [Hin|Hin]; unfold prefix_paths in Hin; apply in_map_iff in Hin;
+            destruct Hin as [[p' q'] [E' Hw]]; simpl in E'; inversion E'; subst.
+          + exists ln, p', l. split; [reflexivity|]. split; [exact Hw|]. split; [exact Wl|]. split; [exact (IHl Wl)|].
+            right. split; [apply String.eqb_neq; exact Ne|]. split; [apply String.eqb_refl|reflexivity].
+          + exists rn, p', r. split; [reflexivity|]. split; [exact Hw|]. split; [exact Wr|]. split; [exact (IHr Wr)|].
+            left. split; [apply String.eqb_refl|reflexivity]. }
+      destruct Cases as [k [p' [c [-> [Hw [Wc [IHc Sel]]]]]]].
+      destruct p' as [|x rest]; [simpl; discriminate|].
+      assert (D := hdown_some c x rest q "float" Wc IHc Hw).
+      cbn [holder_class]. destruct Sel as [[E1 ->]|[E1 [E2 ->]]].
+      + rewrite E1. exact D.
+      + rewrite E1, E2. exact D.
+    - rewrite walk_model in Hin. destruct (walk_attrs_in attrs p q Hin) as [k [c [p' [-> [Hc Hw]]]]].
+      destruct p' as [|x rest]; [simpl; discriminate|]. rewrite holder_model.
+      apply wf_model in W. rewrite Forall_forall in W, IH.
+      apply (hgo_some k (x :: rest) rest (Some cls) attrs c Hc).
+      apply (hdown_some c x rest q cls (W _ Hc) (IH _ Hc (W _ Hc)) Hw).
+    - rewrite walk_coll in Hin. destruct (walk_attrs_in attrs p q Hin) as [k [c [p' [-> [Hc Hw]]]]].
+      destruct p' as [|x rest]; [simpl; discriminate|]. rewrite holder_coll.
+      apply wf_coll in W. rewrite Forall_forall in W, IH.
+      apply (hgo_some k (x :: rest) rest (Some "ModelInstance") attrs c Hc).
+      apply (hdown_some c x rest q "ModelInstance" (proj1 (W _ Hc)) (IH _ Hc (proj1 (W _ Hc))) Hw).
+  Qed.
+
+  Lemma lookup_class_some (n : node) (q : nat) :
+    wf V n -> is_pm n = true -> In q (prior_ids V n) -> lookup_class V q n <> None.
+  Proof.
+    intros W P Hq. unfold lookup_class. destruct own_place_class.
+    - destruct (last_path_some q n Hq) as [p [E Hin]]. rewrite E. apply (holder_class_some n W P p q Hin).
+    - apply (class_of_some n W P q Hq).
+  Qed.
 End C.
 
 (* ---------- totality of mapper_from_prior_means from conditions on widths and limits ---------- *)
@@ -127,7 +236,7 @@ Section T.
     exists s, DM a' r nl n q m = Ok s.
   Proof.
     intros W P Nm Sc [Lg1 [Lg2 Lg3]] Hq AR Ha Hr Hd. unfold derive_mean.
-    destruct (class_of V q n) as [cls|] eqn:Ec; [|exfalso; apply (class_of_some V n W P q Hq Ec)].
+    destruct (lookup_class V q n) as [cls|] eqn:Ec; [|exfalso; apply (lookup_class_some V n q W P Hq Ec)].
     destruct (last_path_some V q n Hq) as [p [Ep _]]. rewrite Ep.
     destruct (Nm q p Ep) as [name En]. rewrite En.
     destruct (lookup_nat q specs) as [old|] eqn:Eo; [|exfalso; apply (Sc q Hq Eo)].
